@@ -2,7 +2,8 @@
 # all_seeds.sh : applies every kept seeded change in turn and runs the quick check of the property it breaks; prints one line per change
 cd /verif
 for d in seeded/*/; do
-  n=$(basename $d); p=$(python3 -c "import json; print(json.load(open('$d/meta.json'))['breaks_property'])")
+  n=$(basename $d); p=$(python3 -c "import json; m=json.load(open('$d/meta.json')); print('SKIP' if m.get('status')=='invalidated' else m['breaks_property'])")
+  [ "$p" = "SKIP" ] && { echo "$n invalidated (see meta.json)"; continue; }
   git -C /repo diff --quiet || { echo "/repo dirty, stop"; exit 2; }
   git -C /repo apply /verif/$d/patch.diff 2>/dev/null || { echo "$n: patch does not apply"; continue; }
   ./verify $p --tier quick > /tmp/allseeds-$n.log 2>&1; RC=$?
